@@ -247,6 +247,7 @@ BREAKING = [
     ('C13', 'sc3/seq/patterns/filterpatterns.py', "                rout.rand_seed = stream.next(inval)\n                inval = yield from stm.embed(stm.stream(rout), inval)", "                inval = yield from stm.embed(stm.stream(rout), inval)\n                rout.rand_seed = stream.next(inval)", 'Pseed seeds the routine after it has run'),
     ('C13', 'sc3/seq/patterns/funcpatterns.py', "                inval = yield next(iterator)\n                while True:\n                    inval = yield iterator.send(inval)", "                yield next(iterator)\n                while True:\n                    yield iterator.send(inval)", 'Prout embedded keeps sending its first input value (the original defect)'),
     ('C17', 'sc3/synth/node.py', "                    bus.index, bus.channels])", "                    bus.channels, bus.index])", '/n_mapn triple with index and channel count exchanged'),
+    ('C03', 'sc3/synth/ugen.py', "        elif isinstance(obj, (str, tuple)):\n            super(aob.AbstractSequence, self).__init__([obj])", "        elif isinstance(obj, (str, tuple)):\n            super(aob.AbstractSequence, self).__init__(obj)", 'a tuple given to ChannelList is spread over channels'),
 ]
 
 
